@@ -91,6 +91,12 @@ impl ModuleCacheEntry {
         new_common: ModuleCommonInfo,
         new_parsed: ParsedModuleInfo,
     ) {
+        // A typed module that was built from another text of the file must never be reused, whatever
+        // the versions say: the compilation of that text may have been cancelled, or the file may not
+        // have been part of the program when it changed.
+        if self.common.hash != new_common.hash {
+            self.typed = None;
+        }
         self.common = new_common;
         self.parsed = new_parsed;
     }
